@@ -591,7 +591,7 @@ func ifConditions(fd *ast.FuncDecl) []string {
 }
 
 func genMirrors() {
-	l := newLean("Mirrors")
+	l := newLean("Mirrors", "Gen.DKGTable")
 	l.pf(`namespace Gen
 /-- one (type, mirror, to, from) conversion pair: field lists and the fields each body touches -/
 structure Mirror where
@@ -682,7 +682,8 @@ structure Mirror where
 			die("mirrors: SchemeFromName has no rejecting default case")
 		}
 		l.pf("/-- crypto.SchemeFromName: the names it accepts, in source order; everything else is an error -/\ndef schemeNames : List String := [%s]\n", strings.Join(schemes, ", "))
-		l.pf("def defaultSchemeID : String := %s\n", constStr("crypto", "DefaultSchemeID"))
+		// `Gen.defaultSchemeID` is emitted by the DKG table generator (Gen/DKGTable.lean), imported above
+		_ = constStr("crypto", "DefaultSchemeID")
 		g := findFunc("crypto", "", "GetSchemeByID")
 		conds := ifConditions(g)
 		last, ok := g.Body.List[len(g.Body.List)-1].(*ast.ReturnStmt)
